@@ -221,7 +221,6 @@ CStep(c, iv, o) ==
       fin      == pk1 # <<>> /\ Finished(c, Head(pk1), w1)
       pk2      == IF fin THEN Tail(pk1) ELSE pk1
       w2       == IF fin THEN 0 ELSE w1
-      vfield   == IF c.kind = "dp" THEN iv[1] ELSE 0
   IN
   /\ ep'    = IF ~sinkfire THEN ep
               ELSE IF iv[3] = 1 THEN [par |-> (ep.par + 1) % c.npar, k |-> 0, fv |-> <<>>, v |-> 0, prev |-> <<>>]
